@@ -468,6 +468,7 @@ def call_method(ex, st, node, recv, name, args, kwargs):
             parts = []
             for k, it in enumerate(lst.items):
                 if k: parts.append(recv.term)
+                it = ex.unopt(it, st, node)          # a None item makes str.join raise TypeError
                 parts.append(it.term)
             return VStr(z3.Concat(*parts) if len(parts) > 1 else (parts[0] if parts else z3.StringVal('')), recv.ty), None
         if not isinstance(lst, VList): raise ToolLimit('join of %s (line %s)' % (type(lst).__name__, ln))
@@ -516,6 +517,9 @@ def call_method(ex, st, node, recv, name, args, kwargs):
             r = f(t, args[0].term)
             st.assume(r >= 0); st.assume((r == 0) == z3.Not(contains_(t, args[0].term)))
             return VInt(r), None
+        if name == 'replace' and len(args) == 3:
+            f3 = z3.Function('str_replace_n', z3.StringSort(), z3.StringSort(), z3.StringSort(), z3.IntSort(), z3.StringSort())
+            return VStr(f3(t, args[0].term, args[1].term, ex.as_int(args[2], st, node).term), recv.ty), None
         if name == 'replace' and len(args) == 2:
             a_, b_ = args[0].term, args[1].term
             r = REPLACE_ALL(t, a_, b_)
